@@ -78,7 +78,7 @@ fn families() -> Vec<Family> {
         // no user function at all: the input is reached through plain fields, through the `facts`
         // alias only, through a symbol-free constant (evaluated on alternating inputs in the
         // repetition leg)
-        Family { name: "no-functions", rules: vec!["facts.id", "facts.other == i2", "id + other", "facts", "i1 + i1", "if facts.id > i1 then facts.other else id"], inputs: vec![in1.clone(), in2.clone(), RV::Int(21), RV::Int(16)] },
+        Family { name: "no-functions", rules: vec!["facts.id", "facts.other == i2", "id + other", "facts", "i1 + i1", "if facts.id > i1 then facts.other else id", "if false then i1 else id * i2", "if true then other else i0", "if i1 == i1 then [id, other] else none"], inputs: vec![in1.clone(), in2.clone(), RV::Int(21), RV::Int(16)] },
         // both interleaved evaluations are suspended 150 levels deep (per-thread bookkeeping of
         // nesting adds up across suspended evaluations)
         Family { name: "deep-interleave", rules: vec![DEEP_RULE.as_str(), "c(other)"], inputs: vec![in1, in2] },
@@ -384,6 +384,74 @@ fn sequential_legs(fam: &Family, rules: &[String], baselines: &[(Outs, Vec<(Stri
     }
 }
 
+/// N evaluations all suspended 150 levels deep at the same time (bookkeeping summed over all
+/// in-flight evaluations), resumed in order and in reverse order: a few fixed schedules
+fn pile_up_leg(acc: &mut Acc, n: usize) {
+    let world = Arc::new(Mutex::new(World::default()));
+    let rules = vec![nested_call(150), "c(other)".to_string()];
+    let rs = match build(&rules, &world) {
+        Ok(r) => r,
+        Err(m) => return acc.machinery(m),
+    };
+    let inputs: Vec<RV> = (0..n).map(|i| RV::map(&[("id", RV::Int(i as i128)), ("other", RV::Int(100 + i as i128))])).collect();
+    let bases: Vec<_> = match inputs.iter().map(|i| baseline(&rules, i)).collect::<Result<Vec<_>, _>>() {
+        Ok(b) => b,
+        Err(m) => return acc.machinery(m),
+    };
+    let facts: Vec<Value> = inputs.iter().map(|i| i.to_value()).collect();
+    for reverse in [false, true] {
+        let always = Arc::new(Mutex::new(crate::engine::choice::Chooser::with_prefix(vec![1; 4 * n + 8])));
+        {
+            let mut g = world.lock().unwrap();
+            g.chooser = Some(always);
+            g.max_susp = 1;
+            g.log.clear();
+        }
+        let wc = Arc::new(WakeCount::default());
+        let mut futs: Vec<Option<EvalFut>> = facts.iter().map(|f| Some(Box::pin(rs.evaluate_value(f)) as EvalFut)).collect();
+        let mut results: Vec<Option<Result<Outs, String>>> = (0..n).map(|_| None).collect();
+        // first: every evaluation polled once (all suspended deep inside the first rule)
+        let mut order: Vec<usize> = (0..n).collect();
+        loop {
+            let live: Vec<usize> = order.iter().copied().filter(|&t| futs[t].is_some()).collect();
+            if live.is_empty() {
+                break;
+            }
+            for t in live {
+                world.lock().unwrap().current = t;
+                match catch(|| poll_once(futs[t].as_mut().unwrap().as_mut(), &wc)) {
+                    Ok(Poll::Ready(o)) => {
+                        futs[t] = None;
+                        results[t] = Some(owned(o));
+                    }
+                    Ok(Poll::Pending) => {}
+                    Err(p) => {
+                        futs[t] = None;
+                        results[t] = Some(Err(format!("PANIC: {p}")));
+                    }
+                }
+            }
+            if reverse {
+                order.reverse();
+            }
+        }
+        acc.count("executions", n as u64);
+        for t in 0..n {
+            if results[t].as_ref().and_then(|r| r.as_ref().ok()) != Some(&bases[t].0) {
+                acc.violation(Violation {
+                    sig: "pile-up/outcome".into(),
+                    what: format!("{n} evaluations suspended 150 levels deep at the same time: evaluation {t} returned {:?}, alone it returns the nested list", results[t].as_ref().map(|r| r.as_ref().map(|o| o.iter().map(|x| x.1.class()).collect::<Vec<_>>()))),
+                    case: json!({"kind": "pile-up", "n": n}),
+                    size: t,
+                });
+                break;
+            }
+        }
+        world.lock().unwrap().chooser = None;
+        acc.outcome("pile-up");
+    }
+}
+
 /// state that builds up over many *different* inputs (process-wide memo tables, bounded caches):
 /// evaluate N distinct inputs, then the first ones again; every outcome must equal the one the same
 /// input produced the first time round and the reference value
@@ -589,6 +657,7 @@ pub fn run(tier: Tier) -> i32 {
         }
         Err(m) => acc.machinery(m),
     }
+    pile_up_leg(&mut acc, 8);
     expr_leg(&mut acc);
     many_inputs_leg(&mut acc, tier.pick(300, 3000));
     rep.absorb(acc);
